@@ -95,7 +95,7 @@ func (s svArr) Size() int { return s[1] }
 func (s svBox) Size() int { return s.size }
 
 const (
-	vkPtr   = iota // *sv (the only kind that is stored again after growing, see act.Same)
+	vkPtr = iota // *sv (the only kind that is stored again after growing, see act.Same)
 	vkStruct
 	vkInt
 	vkStr
